@@ -418,7 +418,7 @@ func (e *Engine) specialObligations(name, prop string) ([]*Obligation, []string,
 		return e.encapObligations(prop), nil, nil
 	case "readers":
 		var obs []*Obligation
-		for _, ob := range append(append(e.readersObligations(prop), e.writersObligations(prop)...), e.callersObligations(prop)...) {
+		for _, ob := range append(append(append(e.readersObligations(prop), e.writersObligations(prop)...), e.callersObligations(prop)...), e.statelessObligations(prop)...) {
 			if obBelongs(ob, prop) {
 				obs = append(obs, ob)
 			}
